@@ -6,6 +6,7 @@ import (
 	"errors"
 	"fmt"
 	"net"
+	"os"
 	"strings"
 	"time"
 
@@ -70,6 +71,7 @@ type ClientScenario struct {
 	Horizon    int64 // ticks; calls with Tries<0 are cancelled by the harness here (0 = none)
 	FailWrites []int // indices of WriteTo calls that fail with an injected error
 	CloseErr   bool  // the connection's Close reports an error (and closes)
+	Log        bool  // the client is configured with its debug logger (output discarded) and, for DHCPv6, with WithLogDroppedPackets
 	Bound      int
 	Rules      string // which rule groups the oracle enforces: any of "ABCDE..." see oracle
 }
@@ -84,6 +86,9 @@ func (s *ClientScenario) String() string {
 	if s.CloseErr {
 		b.WriteString("(conn.Close reports an error) ")
 	}
+	if s.Log {
+		b.WriteString("(debug logger, dropped packets logged) ")
+	}
 	for _, c := range s.Calls {
 		fmt.Fprintf(&b, "{id%d m%d start%d cancel%d dl%v after%d}", c.ID, c.Match, c.StartAt, c.CancelAt, c.Deadline, c.After)
 	}
@@ -93,6 +98,19 @@ func (s *ClientScenario) String() string {
 	}
 	b.WriteString("]")
 	return b.String()
+}
+
+var devNull, _ = os.OpenFile(os.DevNull, os.O_WRONLY, 0)
+
+// quietly builds a logger option whose output goes nowhere: the library's loggers capture
+// os.Stderr when the option is made, so it is swapped for the duration of that call only.
+func quietly[O any](mk func() O) O {
+	old := os.Stderr
+	if devNull != nil {
+		os.Stderr = devNull
+	}
+	defer func() { os.Stderr = old }()
+	return mk()
 }
 
 var clientMAC = net.HardwareAddr{0x02, 0x00, 0x5e, 0x10, 0x00, 0x01}
@@ -236,7 +254,11 @@ func (s *ClientScenario) body(out **clientRun) func() {
 		var send func(ctx context.Context, c CallSpec, idx int) (int, error)
 		var closeFn func() error
 		if !s.V6 {
-			cl, err := nclient4.NewWithConn(conn, clientMAC, nclient4.WithTimeout(T), nclient4.WithRetry(s.Tries), nclient4.WithServerAddr(serverAddr))
+			opts4 := []nclient4.ClientOpt{nclient4.WithTimeout(T), nclient4.WithRetry(s.Tries), nclient4.WithServerAddr(serverAddr)}
+			if s.Log {
+				opts4 = append(opts4, quietly(nclient4.WithDebugLogger))
+			}
+			cl, err := nclient4.NewWithConn(conn, clientMAC, opts4...)
 			if err != nil {
 				panic(err)
 			}
@@ -279,7 +301,11 @@ func (s *ClientScenario) body(out **clientRun) func() {
 				return int(v[0]), err
 			}
 		} else {
-			cl, err := nclient6.NewWithConn(conn, clientMAC, nclient6.WithTimeout(T), nclient6.WithRetry(s.Tries), nclient6.WithBroadcastAddr(serverAddr6))
+			opts6 := []nclient6.ClientOpt{nclient6.WithTimeout(T), nclient6.WithRetry(s.Tries), nclient6.WithBroadcastAddr(serverAddr6)}
+			if s.Log {
+				opts6 = append(opts6, nclient6.WithLogDroppedPackets(), quietly(nclient6.WithDebugLogger))
+			}
+			cl, err := nclient6.NewWithConn(conn, clientMAC, opts6...)
 			if err != nil {
 				panic(err)
 			}
